@@ -49,15 +49,37 @@ const (
 	// rejected blocks: both pass SanityCheckNewHeight (self-consistent hash and commitments) and are refused by Store
 	opStoreOrphan  // a valid block X of height head+1 built on a SIBLING of the head (parent does not match the head)
 	opStoreBadRoot // the valid next block X offered with a state update whose old root is not the head's state root
+	// rejected blocks whose NUMBER is not head+1 (all self-consistent, all refused by Store's succession check before
+	// anything is written): what a re-announced head, a stale store task of a cancelled sync stream, a peer on
+	// another fork or a peer that is ahead hands to Store. The canonical chain and its events are unchanged.
+	opStoreDupHead // the canonical head block offered a second time (number = head)
+	opStoreSibHead // a valid SIBLING of the head: same parent, other events (number = head)
+	opStoreStale1  // the canonical block head-1 offered again (number = head-1)
+	opStoreStale2  // the canonical block head-2 offered again (number = head-2)
+	opStoreFuture2 // a valid block of number head+2: the child of a valid block X of number head+1 that was never stored
+	opStoreFuture3 // ... of number head+3
 )
 
 var opNames = map[op]string{opStoreX: "store:X", opStoreY: "store:Y", opStoreZ: "store:Z", opStoreE: "store:-", opRevert: "revert",
 	opQuery: "query", opRestartG: "restart-graceful", opRestartU: "restart-ungraceful",
 	opStoreFail1: "store:X!commit#1-fails", opStoreFail2: "store:X!commit#2-fails", opRevertFail1: "revert!commit#1-fails", opRevertFail2: "revert!commit#2-fails",
-	opStoreOrphan: "store!orphan-rejected", opStoreBadRoot: "store:X!bad-old-root-rejected"}
+	opStoreOrphan: "store!orphan-rejected", opStoreBadRoot: "store:X!bad-old-root-rejected",
+	opStoreDupHead: "store!head-again(#head)-rejected", opStoreSibHead: "store!sibling-of-head(#head)-rejected",
+	opStoreStale1: "store!stale(#head-1)-rejected", opStoreStale2: "store!stale(#head-2)-rejected",
+	opStoreFuture2: "store!future(#head+2)-rejected", opStoreFuture3: "store!future(#head+3)-rejected"}
 
-// faultOps in the order they are appended to a search alphabet.
+// faultOps in the order they are appended to a search alphabet. The rejected-by-number ops cover the block numbers
+// head-1, head (the head itself and a sibling of it) and head+2 in the quick tier; thorough adds head-2 and head+3.
+// (head+1 is covered by the orphan / bad-old-root ops.)
 var faultOps = []op{opStoreFail1, opStoreFail2, opRevertFail1, opRevertFail2, opStoreOrphan, opStoreBadRoot}
+
+// rejectedByNumberOps: see faultOps.
+func rejectedByNumberOps(thorough bool) []op {
+	if thorough {
+		return []op{opStoreDupHead, opStoreSibHead, opStoreStale1, opStoreStale2, opStoreFuture2, opStoreFuture3}
+	}
+	return []op{opStoreDupHead, opStoreSibHead, opStoreStale1, opStoreFuture2}
+}
 
 func isFault(o op) bool { return o >= opStoreFail1 }
 
@@ -72,7 +94,7 @@ func faults(p []op) (n int) {
 
 // faultTag names the kinds of failed operations in a history (part of violation keys).
 func faultTag(p []op) string {
-	var sc, rc, rj bool
+	var sc, rc, rj, rjLow, rjHigh bool
 	for _, o := range p {
 		switch o {
 		case opStoreFail1, opStoreFail2:
@@ -81,6 +103,10 @@ func faultTag(p []op) string {
 			rc = true
 		case opStoreOrphan, opStoreBadRoot:
 			rj = true
+		case opStoreDupHead, opStoreSibHead, opStoreStale1, opStoreStale2:
+			rjLow = true
+		case opStoreFuture2, opStoreFuture3:
+			rjHigh = true
 		}
 	}
 	var k []string
@@ -92,6 +118,12 @@ func faultTag(p []op) string {
 	}
 	if rj {
 		k = append(k, "rejected-block")
+	}
+	if rjLow {
+		k = append(k, "rejected-block(number<=head)")
+	}
+	if rjHigh {
+		k = append(k, "rejected-block(number>head+1)")
 	}
 	if len(k) == 0 {
 		return ""
@@ -219,6 +251,12 @@ func (n *node) enabled(o op) bool {
 		return len(n.chain) > 0 && n.fdb != nil
 	case opStoreFail1, opStoreFail2:
 		return n.fdb != nil
+	case opStoreDupHead, opStoreSibHead:
+		return len(n.chain) >= 1
+	case opStoreStale1:
+		return len(n.chain) >= 2
+	case opStoreStale2:
+		return len(n.chain) >= 3
 	}
 	return true
 }
@@ -332,6 +370,33 @@ func (n *node) apply(o op) error {
 		su.OldRoot = &bogusRoot
 		fe.SU = &su
 		return n.storeRejected(fe)
+	case opStoreDupHead, opStoreStale1, opStoreStale2:
+		// a canonical block of the node's own chain, rebuilt from its spec (juno never gets the reference copy)
+		back := map[op]int{opStoreDupHead: 1, opStoreStale1: 2, opStoreStale2: 3}[o]
+		i := len(n.chain) - back
+		var parent *chain.Entry
+		if i > 0 {
+			parent = n.chain[i-1]
+		}
+		return n.storeRejected(n.chain[i].Fresh(parent))
+	case opStoreSibHead:
+		var parent *chain.Entry
+		if len(n.chain) >= 2 {
+			parent = n.chain[len(n.chain)-2]
+		}
+		// a sibling with events (its bloom is not included in X's or Y's): Z, or Y when the head is that Z
+		sib := buildEntry(parent, shZ)
+		if sib.Block.Hash.Equal(n.head().Block.Hash) {
+			sib = buildEntry(parent, shY)
+		}
+		return n.storeRejected(sib.Fresh(parent))
+	case opStoreFuture2, opStoreFuture3:
+		parent := buildEntry(n.head(), shX) // valid next block, never stored
+		e := buildEntry(parent, shY)
+		if o == opStoreFuture3 {
+			parent, e = e, buildEntry(e, shX)
+		}
+		return n.storeRejected(e.Fresh(parent))
 	}
 	return nil
 }
